@@ -2,6 +2,7 @@
 import random
 
 from vmon import gens as G
+from vmon.gens import THOROUGH_SCALE as TS
 from vmon import oracles as O
 
 PID = "C08"
@@ -230,7 +231,7 @@ def generate(tier, seed):
         yield "metric", {"A": X, "B": X[:2], "w": [1, 1, 1], "plain": True}, True
         yield "fn", {"X": [f"s{i}" for i in range(min(m, 8))], "mode": "order"}, True
     pools = [G.universe("ACD", 4), G.hostile_strings(), G.NON_AMINO + G.universe("ab", 3)]
-    n_rand = 4000 if thorough else 200
+    n_rand = 4000 * TS if thorough else 200
     for i in range(n_rand):
         pool = pools[i % len(pools)]
         A = G.small_multiset(rng, pool, 1, 14)
@@ -241,7 +242,7 @@ def generate(tier, seed):
             cont = None
         yield "metric", {"A": A, "B": B, "w": w, "plain": i % 7 == 0, "container": cont}, i < 60
     # repertoire-like
-    for i in range(100 if thorough else 8):
+    for i in range(100 * TS if thorough else 8):
         rep = G.repertoire(rng, rng.randint(8, 40))
         yield "metric", {"A": rep, "B": rep[:7], "w": [rng.randint(1, 4), rng.randint(1, 4), rng.randint(1, 6)]}, i < 3
     # long strings (no wrap-around): lengths up to 400, completely different / nearly identical
@@ -254,13 +255,13 @@ def generate(tier, seed):
             b = G.rand_string(rng, "MNPQRSTVWY", lb, lb)
         w = [[1, 1, 1], [1, 1, 1], [2, 3, 4], [1, 1, 3]][i % 4]
         yield "long", {"a": a, "b": b, "w": w}, True
-    for i in range(60 if thorough else 6):
+    for i in range(60 * TS if thorough else 6):
         a = G.rand_string(rng, "ACDW", 200, 400)
         b = G.mutate(rng, a, "ACDW", rng.randint(1, 40))
         yield "long", {"a": a, "b": b, "w": [1, 1, 1] if i % 2 else [2, 1, 3]}, i < 3
     # functional helpers
     names = ["p", "q", "r", "s", "t", "u", "v", "w"]
-    for i in range(600 if thorough else 60):
+    for i in range(600 * TS if thorough else 60):
         m = rng.randint(2, 8)
         X = rng.sample(names, m)
         mode = ["order", "float", "default", "default_weights"][i % 4]
